@@ -139,6 +139,42 @@ def main(argv):
         out["read"][fmt] = rows
         out["read_list"][fmt] = lists
 
+    # timestamps next to values an adapter refuses or treats specially: every record written on its own
+    BIGS = [2**63, -(2**63) - 1, 10**40, 2**63 - 1, None, 2**64]
+    M = RecordDescriptor("verif/c13mixed", [("datetime", "ts"), ("varint", "i"), ("varint", "big"), ("string", "s")])
+    out["mixed"] = {}
+    nm = min(n, 18)
+    for fmt, uri in (("stream", os.path.join(workdir, "m.records")), ("json", os.path.join(workdir, "m.json")),
+                     ("sqlite", "sqlite://" + os.path.join(workdir, "m.db")), ("avro", "avro://" + os.path.join(workdir, "m.avro"))):
+        res = {"refused": [], "accepted": [], "rows": None, "error": None}
+        out["mixed"][fmt] = res
+        try:
+            w = RecordWriter(uri)
+            for i in range(nm):
+                try:
+                    r = M(ts=model.build(specs[i], ft), i=i, big=BIGS[i % len(BIGS)], s="lone\udcffescape" if i % 5 == 4 else "s", _generated=GEN)
+                except Exception as e:  # noqa: BLE001
+                    out["errors"].append(["construct-mixed", i, type(e).__name__, repr(e)[:200]])
+                    continue
+                if fmt == "avro" and (r.ts is None or not model.utc_representable(model.observe_dt(r.ts))):
+                    continue
+                try:
+                    w.write(r)
+                    res["accepted"].append(i)
+                except Exception as e:  # noqa: BLE001 - refused by the adapter
+                    res["refused"].append([i, type(e).__name__])
+            w.flush()
+            w.close()
+            if res["accepted"]:
+                rd = RecordReader(uri)
+                res["rows"] = [[None if r.i is None else int(r.i), None if r.ts is None else model.observe_dt(r.ts),
+                                None if r._generated is None else model.observe_dt(r._generated)] for r in rd]
+                rd.close()
+            else:
+                res["rows"] = []
+        except Exception as e:  # noqa: BLE001
+            res["error"] = [type(e).__name__, repr(e)[:200]]
+
     # comparisons, ordering, equality of records, selector matches: must not depend on the display setting
     m = min(n, 40)
     vs = values[:m]
